@@ -366,7 +366,15 @@ impl Cartesian<'_> {
         #[cfg(opw_verif)]
         crate::verif_hooks::emit("strategy", || format!("{{\"end\":\"ok\",\"waypoints\":{}}}", trace.len()));
 
-        Ok(trace)
+        if self.include_linear_interpolation {
+            Ok(trace)
+        } else {
+            // The interpolated poses were needed for planning only.
+            Ok(trace
+                .into_iter()
+                .filter(|waypoint| !waypoint.flags.contains(PathFlags::LIN_INTERP))
+                .collect())
+        }
     }
 
     /// Transition cartesian way from 'from' into 'to' while assuming 'from'
